@@ -1,4 +1,5 @@
 import LoraVerif.Props.TieA.Basic
+import LoraVerif.Props.TieA.Band
 /-!
 # C09, tie A: the static regional parameters of the hand model equal the REGENERATED ones
 
@@ -16,19 +17,6 @@ theorem tieA_regions :
     RegionId.all.map toGen = Gen.RegionStatic.Region.all ∧ ∀ r : RegionId, (toGen r).name = r.name := by
   refine ⟨by decide, fun r => ?_⟩
   cases r <;> rfl
-
-/-- band limits: `frequency_valid` of every region (the function handed to the plan constructor in
-`State::new`: `(lo..=hi).contains(&f)`) -/
-theorem tieA_frequencyValid (r : RegionId) (f : Nat) :
-    frequencyValid r f = Gen.RegionStatic.frequency_valid (toGen r) (f : Int) := by
-  cases r <;>
-    simp only [frequencyValid, toGen, Gen.RegionStatic.frequency_valid, Gen.RegionStatic.AS923_1.frequency_valid,
-      Gen.RegionStatic.AS923_2.frequency_valid, Gen.RegionStatic.AS923_3.frequency_valid, Gen.RegionStatic.AS923_4.frequency_valid,
-      Gen.RegionStatic.AU915.frequency_valid, Gen.RegionStatic.EU868.frequency_valid, Gen.RegionStatic.EU433.frequency_valid,
-      Gen.RegionStatic.IN865.frequency_valid, Gen.RegionStatic.US915.frequency_valid] <;>
-    rw [Bool.eq_iff_iff] <;> simp only [Bool.and_eq_true, decide_eq_true_eq] <;> omega
-
-example : frequencyValid .EU868 870000000 = true ∧ frequencyValid .EU868 870000001 = false := by decide
 
 /-- which regions have a fixed channel plan: the kind of the plan type in `State::new`, and what
 `RegionHandler::has_fixed_channel_plan` answers -/
@@ -63,6 +51,15 @@ theorem tieA_initChannels (r : RegionId) (h : r.isFixed = false) :
     genInitChannels (toGen r) = some (DynPlan.init r).channels := by
   cases r <;> first | (exact absurd h (by decide)) | decide
 
+/-- CFList channels (`process_join_accept`): `Channel::new(value, DR0, DR5)` is the model's `mkChan f 0 5`
+(`setChannelSlots`), for every frequency -/
+theorem tieA_cflistChannel (f : Nat) :
+    (Gen.RegionStatic.Channel.new f Gen.RegionStatic.DynamicChannelPlan.process_join_accept.cflist_dr_min
+        Gen.RegionStatic.DynamicChannelPlan.process_join_accept.cflist_dr_max).map ofGenChannel = mkChan f 0 5 := by
+  simp only [Gen.RegionStatic.Channel.new, tieA_dataRateRange, Option.bind_eq_bind, Option.bind_some, Option.pure_def,
+    Option.map_some, Gen.RegionStatic.Channel.new_with_dr, ofGenChannel, mkChan]
+  rfl
+
 /-- a fixed plan has no dynamic channel table -/
 theorem tieA_initChannels_fixed (r : RegionId) (h : r.isFixed = true) :
     Gen.RegionStatic.init_channels (toGen r) = none := by
@@ -83,6 +80,5 @@ theorem tieA_channelFrequencies (c : Gen.RegionStatic.Channel) :
   | mk f d dl => cases dl <;> rfl
 
 #print axioms tieA_regions
-#print axioms tieA_frequencyValid
 #print axioms tieA_initChannels
 end C09
